@@ -90,10 +90,13 @@ Delivered(st, dir, i) ==
        ELSE [st EXCEPT !.intact[r] = @ \cup good]
 
 \* an endpoint logged that it decrypted and processed a packet
-PacketReceived(st, side, ty, pn) ==
+PacketReceived(st, side, ty, pn, carriesData) ==
     LET k == <<TyOf(ty), pn>> IN
     IF k \notin st.intact[side] THEN Fail(st, "a packet was accepted that never reached this endpoint unmodified: tampered or forged (C02)")
-    ELSE IF k \in st.rcvd[side] THEN Fail(st, "a packet number was accepted twice: replay (C02)")
+    ELSE IF k \in st.rcvd[side] /\ carriesData THEN Fail(st, "a packet number was accepted twice: replay (C02)")
+    \* observed on the unchanged tree: a duplicate of a 1-RTT packet that carries no application data (padding / ping probe) is
+    \* logged as received a second time; recorded finding, kept apart from the replay of application data
+    ELSE IF k \in st.rcvd[side] THEN Fail(st, "a packet without application data was processed twice (C02)")
     ELSE [st EXCEPT !.rcvd[side] = @ \cup {k}]
 
 \* application events
